@@ -167,3 +167,525 @@ package packets1
 //@ inline (*Connect).decodeFlags
 //@ inline (*WillTopic).decodeFlags
 //@ inline (*WillTopicUpd).decodeFlags
+
+//@ spec encHdr(n int) int = ite(n + 2 <= 255, 2, 4)
+//@ spec hdrOK(out []byte, n int, typ uint8) bool = ite(n + 2 <= 255, out[0] == uint8(n + 2) && out[1] == typ,
+//@      out[0] == 1 && be16(out, 1) == uint16(n + 4) && out[3] == typ)
+//@ spec lenFieldOK(b []byte) bool = len(b) >= 2 && ite(len(b) <= 255, int(b[0]) == len(b), b[0] == 1 && int(be16(b, 1)) == len(b))
+//@ inline lemmaDecode
+
+//@ func (*Advertise).Unpack
+//@   ensures [C21] accepts: len(buf) == 3 ==> result == nil
+//@ func (*Auth).Unpack
+//@   ensures [C21] accepts: len(buf) >= 2 && len(buf) >= 2 + int(buf[1]) ==> result == nil
+//@ func (*Connack).Unpack
+//@   ensures [C21] accepts: len(buf) == 1 ==> result == nil
+//@ func (*Connect).Unpack
+//@   ensures [C21] accepts: len(buf) >= 5 && buf[1] == 1 ==> result == nil
+//@ func (*Disconnect).Unpack
+//@   ensures [C21] accepts: len(buf) == 0 || len(buf) == 2 ==> result == nil
+//@ func (*GwInfo).Unpack
+//@   ensures [C21] accepts: len(buf) >= 1 ==> result == nil
+//@ func (*Pingreq).Unpack
+//@   ensures [C21] accepts: true ==> result == nil
+//@ func (*Pingresp).Unpack
+//@   ensures [C21] accepts: true ==> result == nil
+//@ func (*Puback).Unpack
+//@   ensures [C21] accepts: len(buf) == 5 ==> result == nil
+//@ func (*Pubcomp).Unpack
+//@   ensures [C21] accepts: len(buf) == 2 ==> result == nil
+//@ func (*Publish).Unpack
+//@   ensures [C21] accepts: len(buf) >= 5 ==> result == nil
+//@ func (*Pubrec).Unpack
+//@   ensures [C21] accepts: len(buf) == 2 ==> result == nil
+//@ func (*Pubrel).Unpack
+//@   ensures [C21] accepts: len(buf) == 2 ==> result == nil
+//@ func (*Regack).Unpack
+//@   ensures [C21] accepts: len(buf) == 5 ==> result == nil
+//@ func (*Register).Unpack
+//@   ensures [C21] accepts: len(buf) >= 5 ==> result == nil
+//@ func (*SearchGw).Unpack
+//@   ensures [C21] accepts: len(buf) == 1 ==> result == nil
+//@ func (*Suback).Unpack
+//@   ensures [C21] accepts: len(buf) == 6 ==> result == nil
+//@ func (*Subscribe).Unpack
+//@   ensures [C21] accepts: len(buf) >= 4 && (fTIT(buf[0]) == 0 || (fTIT(buf[0]) != 3 && len(buf) == 5)) ==> result == nil
+//@ func (*Unsuback).Unpack
+//@   ensures [C21] accepts: len(buf) == 2 ==> result == nil
+//@ func (*Unsubscribe).Unpack
+//@   ensures [C21] accepts: len(buf) >= 4 && (fTIT(buf[0]) == 0 || (fTIT(buf[0]) != 3 && len(buf) == 5)) ==> result == nil
+//@ func (*WillMsg).Unpack
+//@   ensures [C21] accepts: true ==> result == nil
+//@ func (*WillMsgReq).Unpack
+//@   ensures [C21] accepts: len(buf) == 0 ==> result == nil
+//@ func (*WillMsgResp).Unpack
+//@   ensures [C21] accepts: len(buf) == 1 ==> result == nil
+//@ func (*WillMsgUpd).Unpack
+//@   ensures [C21] accepts: true ==> result == nil
+//@ func (*WillTopic).Unpack
+//@   ensures [C21] accepts: len(buf) == 0 || len(buf) >= 2 ==> result == nil
+//@ func (*WillTopicReq).Unpack
+//@   ensures [C21] accepts: len(buf) == 0 ==> result == nil
+//@ func (*WillTopicResp).Unpack
+//@   ensures [C21] accepts: len(buf) == 1 ==> result == nil
+//@ func (*WillTopicUpd).Unpack
+//@   ensures [C21] accepts: len(buf) == 0 || len(buf) >= 2 ==> result == nil
+//@ func (*Auth).Pack
+//@   nopanic [C21]
+//@   requires [C21,C23] fits: len(p.Method) <= 255 && len(p.Data) <= 65000
+//@   assigns p.Header.pktLength
+//@   let n = 2 + len(p.Method) + len(p.Data)
+//@   ensures [C21] ok: result1 == nil && fresh(result0)
+//@   ensures [C21] len: len(result0) == n + encHdr(n)
+//@   ensures [C21] hdr: hdrOK(result0, n, uint8(p.Header.pktType))
+//@   ensures [C21] f0: result0[encHdr(n)] == p.Reason
+//@   ensures [C21] f1: result0[encHdr(n)+1] == uint8(len(p.Method))
+//@   ensures [C21] method: forall i int :: 0 <= i && i < len(p.Method) ==> result0[encHdr(n)+2+i] == p.Method[i]
+//@   ensures [C21] tail: forall i int :: 0 <= i && i < len(p.Data) ==> result0[encHdr(n)+2+len(p.Method)+i] == p.Data[i]
+//@ func (*Disconnect).Pack
+//@   nopanic [C21]
+//@   assigns p.Header.pktLength
+//@   let n = ite(p.Duration == 0, 0, 2)
+//@   ensures [C21] ok: result1 == nil && fresh(result0)
+//@   ensures [C21] len: len(result0) == n + encHdr(n)
+//@   ensures [C21] hdr: hdrOK(result0, n, uint8(p.Header.pktType))
+//@   ensures [C21] f0: p.Duration != 0 ==> be16(result0, 2) == p.Duration
+//@ func (*WillTopic).Pack
+//@   nopanic [C21]
+//@   requires [C21,C23] fits: len(p.WillTopic) <= 65530
+//@   assigns p.Header.pktLength
+//@   let n = ite(len(p.WillTopic) == 0, 0, 1 + len(p.WillTopic))
+//@   ensures [C21] ok: result1 == nil && fresh(result0)
+//@   ensures [C21] len: len(result0) == n + encHdr(n)
+//@   ensures [C21] hdr: hdrOK(result0, n, uint8(p.Header.pktType))
+//@   ensures [C21] f0: n > 0 ==> result0[encHdr(n)] == ((p.QOS << 5) & 0x60) | ite(p.Retain, uint8(0x10), uint8(0))
+//@   ensures [C21] tail: forall i int :: 0 <= i && i < len(p.WillTopic) ==> result0[encHdr(n)+1+i] == p.WillTopic[i]
+//@ func (*WillTopicUpd).Pack
+//@   nopanic [C21]
+//@   requires [C21,C23] fits: len(p.WillTopic) <= 65530
+//@   assigns p.Header.pktLength
+//@   let n = ite(len(p.WillTopic) == 0, 0, 1 + len(p.WillTopic))
+//@   ensures [C21] ok: result1 == nil && fresh(result0)
+//@   ensures [C21] len: len(result0) == n + encHdr(n)
+//@   ensures [C21] hdr: hdrOK(result0, n, uint8(p.Header.pktType))
+//@   ensures [C21] f0: n > 0 ==> result0[encHdr(n)] == ((p.QOS << 5) & 0x60) | ite(p.Retain, uint8(0x10), uint8(0))
+//@   ensures [C21] tail: forall i int :: 0 <= i && i < len(p.WillTopic) ==> result0[encHdr(n)+1+i] == p.WillTopic[i]
+//@ func (*Subscribe).Pack
+//@   nopanic [C21]
+//@   requires [C21,C23] fits: len(p.TopicName) <= 65528
+//@   assigns p.Header.pktLength
+//@   let n = 3 + ite(p.TopicIDType == 0, len(p.TopicName), ite(p.TopicIDType == 1 || p.TopicIDType == 2, 2, 0))
+//@   ensures [C21] ok: result1 == nil && fresh(result0)
+//@   ensures [C21] len: len(result0) == n + encHdr(n)
+//@   ensures [C21] hdr: hdrOK(result0, n, uint8(p.Header.pktType))
+//@   ensures [C21] f0: result0[encHdr(n)] == ite(p.dup, uint8(0x80), uint8(0)) | ((p.QOS << 5) & 0x60) | (p.TopicIDType & 0x03)
+//@   ensures [C21] f1: be16(result0, encHdr(n)+1) == p.messageID
+//@   ensures [C21] f2: (p.TopicIDType == 1 || p.TopicIDType == 2) ==> be16(result0, encHdr(n)+3) == p.TopicID
+//@   ensures [C21] tail: p.TopicIDType == 0 ==> (forall i int :: 0 <= i && i < len(p.TopicName) ==> result0[encHdr(n)+3+i] == p.TopicName[i])
+//@ func (*Unsubscribe).Pack
+//@   nopanic [C21]
+//@   requires [C21,C23] fits: len(p.TopicName) <= 65528
+//@   assigns p.Header.pktLength
+//@   let n = 3 + ite(p.TopicIDType == 0, len(p.TopicName), ite(p.TopicIDType == 1 || p.TopicIDType == 2, 2, 0))
+//@   ensures [C21] ok: result1 == nil && fresh(result0)
+//@   ensures [C21] len: len(result0) == n + encHdr(n)
+//@   ensures [C21] hdr: hdrOK(result0, n, uint8(p.Header.pktType))
+//@   ensures [C21] f0: result0[encHdr(n)] == (p.TopicIDType & 0x03)
+//@   ensures [C21] f1: be16(result0, encHdr(n)+1) == p.messageID
+//@   ensures [C21] f2: (p.TopicIDType == 1 || p.TopicIDType == 2) ==> be16(result0, encHdr(n)+3) == p.TopicID
+//@   ensures [C21] tail: p.TopicIDType == 0 ==> (forall i int :: 0 <= i && i < len(p.TopicName) ==> result0[encHdr(n)+3+i] == p.TopicName[i])
+// ---- C21: Pack contracts (generated by /verif/tools/gen_c21.py from the MQTT-SN 1.2 layout table) ----
+//@ func (*Advertise).Pack
+//@   nopanic [C21]
+//@   requires [C21,C23] hdr_set: p.Header.pktLength == 5
+//@   let n = 3
+//@   ensures [C21] ok: result1 == nil && fresh(result0)
+//@   ensures [C21] len: len(result0) == n + encHdr(n)
+//@   ensures [C21] hdr: hdrOK(result0, n, uint8(p.Header.pktType))
+//@   ensures [C21] f0: result0[encHdr(n)+0] == p.GatewayID
+//@   ensures [C21] f1: be16(result0, encHdr(n)+1) == p.Duration
+//@ func (*SearchGw).Pack
+//@   nopanic [C21]
+//@   requires [C21,C23] hdr_set: p.Header.pktLength == 3
+//@   let n = 1
+//@   ensures [C21] ok: result1 == nil && fresh(result0)
+//@   ensures [C21] len: len(result0) == n + encHdr(n)
+//@   ensures [C21] hdr: hdrOK(result0, n, uint8(p.Header.pktType))
+//@   ensures [C21] f0: result0[encHdr(n)+0] == p.Radius
+//@ func (*GwInfo).Pack
+//@   nopanic [C21]
+//@   requires [C21,C23] fits: len(p.GatewayAddress) <= 65530
+//@   assigns p.Header.pktLength
+//@   let n = 1 + len(p.GatewayAddress)
+//@   ensures [C21] ok: result1 == nil && fresh(result0)
+//@   ensures [C21] len: len(result0) == n + encHdr(n)
+//@   ensures [C21] hdr: hdrOK(result0, n, uint8(p.Header.pktType))
+//@   ensures [C21] f0: result0[encHdr(n)+0] == p.GatewayID
+//@   ensures [C21] tail: forall i int :: 0 <= i && i < len(p.GatewayAddress) ==> result0[encHdr(n)+1+i] == p.GatewayAddress[i]
+//@ func (*Connect).Pack
+//@   nopanic [C21]
+//@   requires [C21,C23] fits: len(p.ClientID) <= 65527
+//@   assigns p.Header.pktLength
+//@   let n = 4 + len(p.ClientID)
+//@   ensures [C21] ok: result1 == nil && fresh(result0)
+//@   ensures [C21] len: len(result0) == n + encHdr(n)
+//@   ensures [C21] hdr: hdrOK(result0, n, uint8(p.Header.pktType))
+//@   ensures [C21] f0: result0[encHdr(n)+0] == ite(p.Will, uint8(0x08), uint8(0)) | ite(p.CleanSession, uint8(0x04), uint8(0))
+//@   ensures [C21] f1: result0[encHdr(n)+1] == p.ProtocolID
+//@   ensures [C21] f2: be16(result0, encHdr(n)+2) == p.Duration
+//@   ensures [C21] tail: forall i int :: 0 <= i && i < len(p.ClientID) ==> result0[encHdr(n)+4+i] == p.ClientID[i]
+//@ func (*Connack).Pack
+//@   nopanic [C21]
+//@   requires [C21,C23] hdr_set: p.Header.pktLength == 3
+//@   let n = 1
+//@   ensures [C21] ok: result1 == nil && fresh(result0)
+//@   ensures [C21] len: len(result0) == n + encHdr(n)
+//@   ensures [C21] hdr: hdrOK(result0, n, uint8(p.Header.pktType))
+//@   ensures [C21] f0: result0[encHdr(n)+0] == uint8(p.ReturnCode)
+//@ func (*WillTopicReq).Pack
+//@   nopanic [C21]
+//@   requires [C21,C23] hdr_set: p.Header.pktLength == 2
+//@   let n = 0
+//@   ensures [C21] ok: result1 == nil && fresh(result0)
+//@   ensures [C21] len: len(result0) == n + encHdr(n)
+//@   ensures [C21] hdr: hdrOK(result0, n, uint8(p.Header.pktType))
+//@ func (*WillMsgReq).Pack
+//@   nopanic [C21]
+//@   requires [C21,C23] hdr_set: p.Header.pktLength == 2
+//@   let n = 0
+//@   ensures [C21] ok: result1 == nil && fresh(result0)
+//@   ensures [C21] len: len(result0) == n + encHdr(n)
+//@   ensures [C21] hdr: hdrOK(result0, n, uint8(p.Header.pktType))
+//@ func (*WillMsg).Pack
+//@   nopanic [C21]
+//@   requires [C21,C23] fits: len(p.WillMsg) <= 65531
+//@   assigns p.Header.pktLength
+//@   let n = 0 + len(p.WillMsg)
+//@   ensures [C21] ok: result1 == nil && fresh(result0)
+//@   ensures [C21] len: len(result0) == n + encHdr(n)
+//@   ensures [C21] hdr: hdrOK(result0, n, uint8(p.Header.pktType))
+//@   ensures [C21] tail: forall i int :: 0 <= i && i < len(p.WillMsg) ==> result0[encHdr(n)+0+i] == p.WillMsg[i]
+//@ func (*Register).Pack
+//@   nopanic [C21]
+//@   requires [C21,C23] fits: len(p.TopicName) <= 65527
+//@   assigns p.Header.pktLength
+//@   let n = 4 + len(p.TopicName)
+//@   ensures [C21] ok: result1 == nil && fresh(result0)
+//@   ensures [C21] len: len(result0) == n + encHdr(n)
+//@   ensures [C21] hdr: hdrOK(result0, n, uint8(p.Header.pktType))
+//@   ensures [C21] f0: be16(result0, encHdr(n)+0) == p.TopicID
+//@   ensures [C21] f1: be16(result0, encHdr(n)+2) == p.messageID
+//@   ensures [C21] tail: forall i int :: 0 <= i && i < len(p.TopicName) ==> result0[encHdr(n)+4+i] == p.TopicName[i]
+//@ func (*Regack).Pack
+//@   nopanic [C21]
+//@   requires [C21,C23] hdr_set: p.Header.pktLength == 7
+//@   let n = 5
+//@   ensures [C21] ok: result1 == nil && fresh(result0)
+//@   ensures [C21] len: len(result0) == n + encHdr(n)
+//@   ensures [C21] hdr: hdrOK(result0, n, uint8(p.Header.pktType))
+//@   ensures [C21] f0: be16(result0, encHdr(n)+0) == p.TopicID
+//@   ensures [C21] f1: be16(result0, encHdr(n)+2) == p.messageID
+//@   ensures [C21] f2: result0[encHdr(n)+4] == uint8(p.ReturnCode)
+//@ func (*Publish).Pack
+//@   nopanic [C21]
+//@   requires [C21,C23] fits: len(p.Data) <= 65526
+//@   assigns p.Header.pktLength
+//@   let n = 5 + len(p.Data)
+//@   ensures [C21] ok: result1 == nil && fresh(result0)
+//@   ensures [C21] len: len(result0) == n + encHdr(n)
+//@   ensures [C21] hdr: hdrOK(result0, n, uint8(p.Header.pktType))
+//@   ensures [C21] f0: result0[encHdr(n)+0] == ite(p.dup, uint8(0x80), uint8(0)) | ((p.QOS << 5) & 0x60) | ite(p.Retain, uint8(0x10), uint8(0)) | (p.TopicIDType & 0x03)
+//@   ensures [C21] f1: be16(result0, encHdr(n)+1) == p.TopicID
+//@   ensures [C21] f2: be16(result0, encHdr(n)+3) == p.messageID
+//@   ensures [C21] tail: forall i int :: 0 <= i && i < len(p.Data) ==> result0[encHdr(n)+5+i] == p.Data[i]
+//@ func (*Puback).Pack
+//@   nopanic [C21]
+//@   requires [C21,C23] hdr_set: p.Header.pktLength == 7
+//@   let n = 5
+//@   ensures [C21] ok: result1 == nil && fresh(result0)
+//@   ensures [C21] len: len(result0) == n + encHdr(n)
+//@   ensures [C21] hdr: hdrOK(result0, n, uint8(p.Header.pktType))
+//@   ensures [C21] f0: be16(result0, encHdr(n)+0) == p.TopicID
+//@   ensures [C21] f1: be16(result0, encHdr(n)+2) == p.messageID
+//@   ensures [C21] f2: result0[encHdr(n)+4] == uint8(p.ReturnCode)
+//@ func (*Pubcomp).Pack
+//@   nopanic [C21]
+//@   requires [C21,C23] hdr_set: p.Header.pktLength == 4
+//@   let n = 2
+//@   ensures [C21] ok: result1 == nil && fresh(result0)
+//@   ensures [C21] len: len(result0) == n + encHdr(n)
+//@   ensures [C21] hdr: hdrOK(result0, n, uint8(p.Header.pktType))
+//@   ensures [C21] f0: be16(result0, encHdr(n)+0) == p.messageID
+//@ func (*Pubrec).Pack
+//@   nopanic [C21]
+//@   requires [C21,C23] hdr_set: p.Header.pktLength == 4
+//@   let n = 2
+//@   ensures [C21] ok: result1 == nil && fresh(result0)
+//@   ensures [C21] len: len(result0) == n + encHdr(n)
+//@   ensures [C21] hdr: hdrOK(result0, n, uint8(p.Header.pktType))
+//@   ensures [C21] f0: be16(result0, encHdr(n)+0) == p.messageID
+//@ func (*Pubrel).Pack
+//@   nopanic [C21]
+//@   requires [C21,C23] hdr_set: p.Header.pktLength == 4
+//@   let n = 2
+//@   ensures [C21] ok: result1 == nil && fresh(result0)
+//@   ensures [C21] len: len(result0) == n + encHdr(n)
+//@   ensures [C21] hdr: hdrOK(result0, n, uint8(p.Header.pktType))
+//@   ensures [C21] f0: be16(result0, encHdr(n)+0) == p.messageID
+//@ func (*Suback).Pack
+//@   nopanic [C21]
+//@   requires [C21,C23] hdr_set: p.Header.pktLength == 8
+//@   let n = 6
+//@   ensures [C21] ok: result1 == nil && fresh(result0)
+//@   ensures [C21] len: len(result0) == n + encHdr(n)
+//@   ensures [C21] hdr: hdrOK(result0, n, uint8(p.Header.pktType))
+//@   ensures [C21] f0: result0[encHdr(n)+0] == (p.QOS << 5) & 0x60
+//@   ensures [C21] f1: be16(result0, encHdr(n)+1) == p.TopicID
+//@   ensures [C21] f2: be16(result0, encHdr(n)+3) == p.messageID
+//@   ensures [C21] f3: result0[encHdr(n)+5] == uint8(p.ReturnCode)
+//@ func (*Unsuback).Pack
+//@   nopanic [C21]
+//@   requires [C21,C23] hdr_set: p.Header.pktLength == 4
+//@   let n = 2
+//@   ensures [C21] ok: result1 == nil && fresh(result0)
+//@   ensures [C21] len: len(result0) == n + encHdr(n)
+//@   ensures [C21] hdr: hdrOK(result0, n, uint8(p.Header.pktType))
+//@   ensures [C21] f0: be16(result0, encHdr(n)+0) == p.messageID
+//@ func (*Pingreq).Pack
+//@   nopanic [C21]
+//@   requires [C21,C23] fits: len(p.ClientID) <= 65531
+//@   assigns p.Header.pktLength
+//@   let n = 0 + len(p.ClientID)
+//@   ensures [C21] ok: result1 == nil && fresh(result0)
+//@   ensures [C21] len: len(result0) == n + encHdr(n)
+//@   ensures [C21] hdr: hdrOK(result0, n, uint8(p.Header.pktType))
+//@   ensures [C21] tail: forall i int :: 0 <= i && i < len(p.ClientID) ==> result0[encHdr(n)+0+i] == p.ClientID[i]
+//@ func (*Pingresp).Pack
+//@   nopanic [C21]
+//@   requires [C21,C23] hdr_set: p.Header.pktLength == 2
+//@   let n = 0
+//@   ensures [C21] ok: result1 == nil && fresh(result0)
+//@   ensures [C21] len: len(result0) == n + encHdr(n)
+//@   ensures [C21] hdr: hdrOK(result0, n, uint8(p.Header.pktType))
+//@ func (*WillTopicResp).Pack
+//@   nopanic [C21]
+//@   requires [C21,C23] hdr_set: p.Header.pktLength == 3
+//@   let n = 1
+//@   ensures [C21] ok: result1 == nil && fresh(result0)
+//@   ensures [C21] len: len(result0) == n + encHdr(n)
+//@   ensures [C21] hdr: hdrOK(result0, n, uint8(p.Header.pktType))
+//@   ensures [C21] f0: result0[encHdr(n)+0] == uint8(p.ReturnCode)
+//@ func (*WillMsgUpd).Pack
+//@   nopanic [C21]
+//@   requires [C21,C23] fits: len(p.WillMsg) <= 65531
+//@   assigns p.Header.pktLength
+//@   let n = 0 + len(p.WillMsg)
+//@   ensures [C21] ok: result1 == nil && fresh(result0)
+//@   ensures [C21] len: len(result0) == n + encHdr(n)
+//@   ensures [C21] hdr: hdrOK(result0, n, uint8(p.Header.pktType))
+//@   ensures [C21] tail: forall i int :: 0 <= i && i < len(p.WillMsg) ==> result0[encHdr(n)+0+i] == p.WillMsg[i]
+//@ func (*WillMsgResp).Pack
+//@   nopanic [C21]
+//@   requires [C21,C23] hdr_set: p.Header.pktLength == 3
+//@   let n = 1
+//@   ensures [C21] ok: result1 == nil && fresh(result0)
+//@   ensures [C21] len: len(result0) == n + encHdr(n)
+//@   ensures [C21] hdr: hdrOK(result0, n, uint8(p.Header.pktType))
+//@   ensures [C21] f0: result0[encHdr(n)+0] == uint8(p.ReturnCode)
+// ---- C21: round-trip lemmas ----
+//@ func lemmaRoundtripAdvertise
+//@   nopanic [C21]
+//@   requires [C21] legal: true
+//@   ensures [C21] same_fields: q.GatewayID == p.GatewayID && q.Duration == p.Duration
+//@   ensures [C21] length_field: lenFieldOK(b)
+//@ func lemmaRoundtripSearchGw
+//@   nopanic [C21]
+//@   requires [C21] legal: true
+//@   ensures [C21] same_fields: q.Radius == p.Radius
+//@   ensures [C21] length_field: lenFieldOK(b)
+//@ func lemmaRoundtripGwInfo
+//@   nopanic [C21]
+//@   requires [C21] legal: len(addr) <= 7168
+//@   ensures [C21] same_fields: q.GatewayID == p.GatewayID && bytesEq(q.GatewayAddress, p.GatewayAddress)
+//@   ensures [C21] length_field: lenFieldOK(b)
+//@ func lemmaRoundtripConnect
+//@   nopanic [C21]
+//@   requires [C21] legal: len(clientID) >= 1 && len(clientID) <= 7168
+//@   ensures [C21] same_fields: q.Will == p.Will && q.CleanSession == p.CleanSession && q.ProtocolID == p.ProtocolID && q.Duration == p.Duration && bytesEq(q.ClientID, p.ClientID)
+//@   ensures [C21] length_field: lenFieldOK(b)
+//@ func lemmaRoundtripConnack
+//@   nopanic [C21]
+//@   requires [C21] legal: true
+//@   ensures [C21] same_fields: q.ReturnCode == p.ReturnCode
+//@   ensures [C21] length_field: lenFieldOK(b)
+//@ func lemmaRoundtripWillTopicReq
+//@   nopanic [C21]
+//@   requires [C21] legal: true
+//@   ensures [C21] length_field: lenFieldOK(b)
+//@ func lemmaRoundtripWillMsgReq
+//@   nopanic [C21]
+//@   requires [C21] legal: true
+//@   ensures [C21] length_field: lenFieldOK(b)
+//@ func lemmaRoundtripWillMsg
+//@   nopanic [C21]
+//@   requires [C21] legal: len(msg) <= 7168
+//@   ensures [C21] same_fields: bytesEq(q.WillMsg, p.WillMsg)
+//@   ensures [C21] length_field: lenFieldOK(b)
+//@ func lemmaRoundtripRegister
+//@   nopanic [C21]
+//@   requires [C21] legal: len(name) >= 1 && len(name) <= 7168
+//@   ensures [C21] same_fields: q.TopicID == p.TopicID && q.messageID == p.messageID && q.TopicName == p.TopicName
+//@   ensures [C21] length_field: lenFieldOK(b)
+//@ func lemmaRoundtripRegack
+//@   nopanic [C21]
+//@   requires [C21] legal: true
+//@   ensures [C21] same_fields: q.TopicID == p.TopicID && q.messageID == p.messageID && q.ReturnCode == p.ReturnCode
+//@   ensures [C21] length_field: lenFieldOK(b)
+//@ func lemmaRoundtripPublish
+//@   nopanic [C21]
+//@   requires [C21] legal: len(data) <= 7168 && qos <= 3 && tit <= 3
+//@   ensures [C21] same_fields: q.dup == p.dup && q.QOS == p.QOS && q.Retain == p.Retain && q.TopicIDType == p.TopicIDType && q.TopicID == p.TopicID && q.messageID == p.messageID && bytesEq(q.Data, p.Data)
+//@   ensures [C21] length_field: lenFieldOK(b)
+//@ func lemmaRoundtripPuback
+//@   nopanic [C21]
+//@   requires [C21] legal: true
+//@   ensures [C21] same_fields: q.TopicID == p.TopicID && q.messageID == p.messageID && q.ReturnCode == p.ReturnCode
+//@   ensures [C21] length_field: lenFieldOK(b)
+//@ func lemmaRoundtripPubcomp
+//@   nopanic [C21]
+//@   requires [C21] legal: true
+//@   ensures [C21] same_fields: q.messageID == p.messageID
+//@   ensures [C21] length_field: lenFieldOK(b)
+//@ func lemmaRoundtripPubrec
+//@   nopanic [C21]
+//@   requires [C21] legal: true
+//@   ensures [C21] same_fields: q.messageID == p.messageID
+//@   ensures [C21] length_field: lenFieldOK(b)
+//@ func lemmaRoundtripPubrel
+//@   nopanic [C21]
+//@   requires [C21] legal: true
+//@   ensures [C21] same_fields: q.messageID == p.messageID
+//@   ensures [C21] length_field: lenFieldOK(b)
+//@ func lemmaRoundtripSuback
+//@   nopanic [C21]
+//@   requires [C21] legal: qos <= 3
+//@   ensures [C21] same_fields: q.QOS == p.QOS && q.TopicID == p.TopicID && q.messageID == p.messageID && q.ReturnCode == p.ReturnCode
+//@   ensures [C21] length_field: lenFieldOK(b)
+//@ func lemmaRoundtripUnsuback
+//@   nopanic [C21]
+//@   requires [C21] legal: true
+//@   ensures [C21] same_fields: q.messageID == p.messageID
+//@   ensures [C21] length_field: lenFieldOK(b)
+//@ func lemmaRoundtripPingreq
+//@   nopanic [C21]
+//@   requires [C21] legal: len(clientID) <= 7168
+//@   ensures [C21] same_fields: bytesEq(q.ClientID, p.ClientID)
+//@   ensures [C21] length_field: lenFieldOK(b)
+//@ func lemmaRoundtripPingresp
+//@   nopanic [C21]
+//@   requires [C21] legal: true
+//@   ensures [C21] length_field: lenFieldOK(b)
+//@ func lemmaRoundtripWillTopicResp
+//@   nopanic [C21]
+//@   requires [C21] legal: true
+//@   ensures [C21] same_fields: q.ReturnCode == p.ReturnCode
+//@   ensures [C21] length_field: lenFieldOK(b)
+//@ func lemmaRoundtripWillMsgUpd
+//@   nopanic [C21]
+//@   requires [C21] legal: len(msg) <= 7168
+//@   ensures [C21] same_fields: bytesEq(q.WillMsg, p.WillMsg)
+//@   ensures [C21] length_field: lenFieldOK(b)
+//@ func lemmaRoundtripWillMsgResp
+//@   nopanic [C21]
+//@   requires [C21] legal: true
+//@   ensures [C21] same_fields: q.ReturnCode == p.ReturnCode
+//@   ensures [C21] length_field: lenFieldOK(b)
+//@ func lemmaRoundtripAuth
+//@   nopanic [C21]
+//@   requires [C21] legal: len(user) <= 255 && len(password) <= 6000
+//@   ensures [C21] same_fields: q.Reason == p.Reason && q.Method == p.Method && bytesEq(q.Data, p.Data)
+//@   ensures [C21] length_field: lenFieldOK(b)
+//@ func lemmaRoundtripDisconnect
+//@   nopanic [C21]
+//@   requires [C21] legal: true
+//@   ensures [C21] same_fields: q.Duration == p.Duration
+//@   ensures [C21] length_field: lenFieldOK(b)
+//@ func lemmaRoundtripWillTopic
+//@   nopanic [C21]
+//@   requires [C21] legal: len(topic) <= 7168 && qos <= 3
+//@   ensures [C21] same_fields: q.WillTopic == p.WillTopic
+//@   ensures [C21] same_extra0: len(topic) > 0 ==> q.QOS == p.QOS && q.Retain == p.Retain
+//@   ensures [C21] length_field: lenFieldOK(b)
+//@ func lemmaRoundtripWillTopicUpd
+//@   nopanic [C21]
+//@   requires [C21] legal: len(topic) <= 7168 && qos <= 3
+//@   ensures [C21] same_fields: q.WillTopic == p.WillTopic
+//@   ensures [C21] same_extra0: len(topic) > 0 ==> q.QOS == p.QOS && q.Retain == p.Retain
+//@   ensures [C21] length_field: lenFieldOK(b)
+//@ func lemmaRoundtripSubscribe
+//@   nopanic [C21]
+//@   requires [C21] legal: qos <= 3 && tit <= 2 && (tit == 0 ==> len(name) >= 1 && len(name) <= 7168) && (tit != 0 ==> len(name) == 0) && (tit == 0 ==> topicID == 0)
+//@   ensures [C21] same_fields: q.dup == p.dup && q.QOS == p.QOS && q.TopicIDType == p.TopicIDType && q.messageID == p.messageID
+//@   ensures [C21] same_extra0: q.TopicID == p.TopicID && q.TopicName == p.TopicName
+//@   ensures [C21] length_field: lenFieldOK(b)
+//@ func lemmaRoundtripUnsubscribe
+//@   nopanic [C21]
+//@   requires [C21] legal: tit <= 2 && (tit == 0 ==> len(name) >= 1 && len(name) <= 7168) && (tit != 0 ==> len(name) == 0) && (tit == 0 ==> topicID == 0)
+//@   ensures [C21] same_fields: q.TopicIDType == p.TopicIDType && q.messageID == p.messageID
+//@   ensures [C21] same_extra0: q.TopicID == p.TopicID && q.TopicName == p.TopicName
+//@   ensures [C21] length_field: lenFieldOK(b)
+//@ inline (*Auth).computeLength
+//@ inline (*Connect).computeLength
+//@ inline (*Connect).encodeFlags
+//@ inline (*Disconnect).computeLength
+//@ inline (*GwInfo).computeLength
+//@ inline (*Pingreq).computeLength
+//@ inline (*Publish).computeLength
+//@ inline (*Publish).encodeFlags
+//@ inline (*Register).computeLength
+//@ inline (*Suback).encodeFlags
+//@ inline (*Subscribe).computeLength
+//@ inline (*Subscribe).encodeFlags
+//@ inline (*Unsubscribe).computeLength
+//@ inline (*Unsubscribe).encodeFlags
+//@ inline (*WillMsg).computeLength
+//@ inline (*WillMsgUpd).computeLength
+//@ inline (*WillTopic).computeLength
+//@ inline (*WillTopic).encodeFlags
+//@ inline (*WillTopicUpd).computeLength
+//@ inline (*WillTopicUpd).encodeFlags
+//@ inline NewAdvertise
+//@ inline NewAuthPlain
+//@ inline NewConnack
+//@ inline NewConnect
+//@ inline NewDisconnect
+//@ inline NewGwInfo
+//@ inline NewPingreq
+//@ inline NewPingresp
+//@ inline NewPuback
+//@ inline NewPubcomp
+//@ inline NewPublish
+//@ inline NewPubrec
+//@ inline NewPubrel
+//@ inline NewRegack
+//@ inline NewRegister
+//@ inline NewSearchGw
+//@ inline NewSuback
+//@ inline NewSubscribe
+//@ inline NewUnsuback
+//@ inline NewUnsubscribe
+//@ inline NewWillMsg
+//@ inline NewWillMsgReq
+//@ inline NewWillMsgResp
+//@ inline NewWillMsgUpd
+//@ inline NewWillTopic
+//@ inline NewWillTopicReq
+//@ inline NewWillTopicResp
+//@ inline NewWillTopicUpd
+//@ spec isKnownType(t uint8) bool = t <= 0x10 || (t >= 0x12 && t <= 0x18) || (t >= 0x1A && t <= 0x1D)
+//@ func NewPacketWithHeader
+//@   ensures [C21] accepts: isKnownType(uint8(h.pktType)) ==> err == nil
+//@ func (*Subscribe).Unpack
+//@   ensures [C21,C22] other_absent: result == nil ==> (p.TopicIDType == 0 ==> p.TopicID == 0) && (p.TopicIDType != 0 ==> len(p.TopicName) == 0)
+//@ func (*Unsubscribe).Unpack
+//@   ensures [C21,C22] other_absent: result == nil ==> (p.TopicIDType == 0 ==> p.TopicID == 0) && (p.TopicIDType != 0 ==> len(p.TopicName) == 0)
